@@ -165,19 +165,22 @@ fn emit_wrapped_loop_choice_header(
         "flg": choice_flags(choice)
     }));
 
+    // The text lives in the container `s` of the header: inline logic in it (sequences,
+    // conditionals) builds its paths from there.
+    let text_scope = scope.at_path(joined_path(&scope.path, "s"));
     let mut s = Vec::new();
     emit_choice_text_content(
         &choice.start_text,
         &choice.start_tags,
         &mut s,
-        scope,
+        &text_scope,
         context,
     )?;
     emit_choice_text_content(
         &choice.choice_only_text,
         &choice.choice_only_tags,
         &mut s,
-        scope,
+        &text_scope,
         context,
     )?;
     s.push(json!({"->": "$r", "var": true}));
